@@ -53,7 +53,7 @@ func c03Run(cd *Codec, in []byte, entry int, chunks [][2]int, bufSize int, refNo
 	res = guard(budget, func() error {
 		switch entry {
 		case 0:
-			return cd.Parse(append([]byte(nil), in...), rec)
+			return cd.Parse(exact(in), rec)
 		case 1:
 			return cd.ParseString(string(in), rec)
 		case 2:
@@ -62,7 +62,7 @@ func c03Run(cd *Codec, in []byte, entry int, chunks [][2]int, bufSize int, refNo
 		case 3:
 			w := cd.NewWriter(rec)
 			for _, ch := range chunks {
-				if _, err := w.Write(append([]byte(nil), in[ch[0]:ch[1]]...)); err != nil {
+				if _, err := w.Write(exact(in[ch[0]:ch[1]])); err != nil {
 					return err
 				}
 			}
@@ -70,7 +70,7 @@ func c03Run(cd *Codec, in []byte, entry int, chunks [][2]int, bufSize int, refNo
 		case 4, 5:
 			var d Nexter
 			if entry == 4 {
-				d = cd.BytesDec(append([]byte(nil), in...), rec)
+				d = cd.BytesDec(exact(in), rec)
 			} else {
 				d = cd.ReaderDec(&chunkReader{doc: in, chunks: copyChunks(chunks)}, bufSize, rec)
 			}
@@ -266,6 +266,30 @@ func c03Families(tier string) []engine.Family {
 			c03Check(x, cd, in, "argument-sweep", c03Combos(len(in), 3))
 		}},
 	}
+	fams = append(fams, engine.Family{Name: "json-broken-escapes", Body: func(x *engine.Exec) {
+		// a broken or truncated escape as the very last thing of a string, after each kind of prefix
+		bsl := "\\"
+		prefixes := []string{"", "a", bsl + "ud800", bsl + "ud83d", bsl + "udc00", "é", bsl + "n"}
+		tails := []string{bsl, bsl + "u", bsl + "u1", bsl + "u12", bsl + "u123", bsl + "ud800" + bsl, bsl + "ud800" + bsl + "u", bsl + "ud800" + bsl + "u1",
+			bsl + "ud800" + bsl + "u12", bsl + "ud800" + bsl + "u123", bsl + "ud800" + bsl + "ud", bsl + "ud83d" + bsl + "ude0", bsl + "x", bsl + "ud800" + bsl + "n"}
+		pfx := prefixes[x.Choose(len(prefixes))]
+		tl := tails[x.Choose(len(tails))]
+		var doc string
+		switch x.Choose(4) {
+		case 0:
+			doc = `"` + pfx + tl + `"`
+		case 1:
+			doc = `["` + pfx + tl + `"]`
+		case 2:
+			doc = `{"` + pfx + tl + `":1}`
+		default:
+			doc = `"` + pfx + tl // unterminated as well
+		}
+		in := []byte(doc)
+		x.Case("json"+doc, true)
+		x.Sample(func() interface{} { return map[string]interface{}{"codec": "json", "text": doc} })
+		c03Check(x, codecJSON, in, "broken-escape", c03Combos(len(in), 3))
+	}})
 	ed := allDocFamilies(edSc, func(x *engine.Exec, c *DocCase) {
 		doc := c.Doc
 		if len(doc) == 0 || len(doc) > 48 {
@@ -289,8 +313,13 @@ func c03Families(tier string) []engine.Family {
 		})
 		c03Check(x, c.Codec, in, "edit", c03LightCombos(len(in)))
 	})
-	for i := range ed {
-		ed[i].Name += "-edits"
+	var keep []engine.Family
+	for _, f := range ed {
+		if f.Name == "json-int-boundaries" {
+			continue // 1 320 near-identical digit strings add nothing to the edit neighbourhood
+		}
+		f.Name += "-edits"
+		keep = append(keep, f)
 	}
-	return append(fams, ed...)
+	return append(fams, keep...)
 }
